@@ -61,4 +61,12 @@ PROPS = {
         "trusted_base": ["did_url_parser 0.3.0 is third-party: transliterated into the model (with its defects) and tied by correspondence; its buffer-editing setters are modelled at component level", "re-parse of joined/edited DID URL values is correspondence-only (two residual classes are known findings)", "serde glue (String round trip)"],
         "assumptions": [],
     },
+    "C17": {
+        "translate": True,
+        "diff_is_violation": False,
+        "trivial": ["bad-request", "err", "bad-network"],
+        "rule": "streams: (1) corpus; (2) did:<method>:<segments> over 10 method spellings (case variants, near misses, dotless/dotted i) x 17 network names (valid, upper case, too long, non-alphanumeric, Kelvin sign, with colon) x 17 tag shapes (valid, upper case, 0X, no prefix, lengths 62..68, non-hex, trailing colon, percent triple, empty) x 11 trailing parts (path/query/fragment/whitespace/delimiters), prefix variants; EXHAUSTIVE network names of length <= 3 over a 9-symbol alphabet through NetworkName::try_from and inside a DID; (3) IotaDID::new over random / all-zero / all-ff tags x 12 network names; random valid DIDs with random letter case; Eq on random pairs and the default-network spellings. Oracle: method, network rule, tag shape, lowercase, normal form (default network omitted), no URL parts, re-parse, JSON round trip, TryFrom<CoreDID>, new exposes bytes and name, Eq iff network and tag bytes. Non-trivial = reply not err/bad-request/bad-network; distinct request lines.",
+        "trusted_base": ["str::to_lowercase (Unicode) is computed by the harness and checked against the implementation; the model starts from the lower-cased bytes", "prefix-hex / hex crates (modelled concretely, tied by correspondence)", "builds on the C10 DID model (third-party parser transliterated)"],
+        "assumptions": ["tag_eq_iff_bytes assumes the model input has no upper-case ASCII letter (true of every to_lowercase output)"],
+    },
 }
